@@ -45,6 +45,13 @@ def run(ctx):
                 cfg = nv.Cfg(domh=3, height=h)
                 cases.append({"op": "solve", "problem": prob.to_json(), "cfg": ce.cfg_json(cfg), "n": n3 + lead, "limit": 4, "ternary": True,
                               "total": (2 ** lead) * (3 ** min(n3, 3))})
+                # the same under min_cost with the INTERIOR value cheapest (it also goes through the three-way split and pushes two
+                # levels), and with a bound cheapest (one level), with shaving as well
+                for costs in ([3, 1, 2], [1, 3, 2]):
+                    for cons in ((0, 1) if h <= 8 else (0,)):
+                        cfg = nv.Cfg(cons=cons, domh=4, dom_costs=[list(costs) for _ in shr], height=h)
+                        cases.append({"op": "solve", "problem": prob.to_json(), "cfg": ce.cfg_json(cfg), "n": n3 + lead, "limit": 4, "ternary": True,
+                                      "total": (2 ** lead) * (3 ** min(n3, 3))})
     jit = ctx["tier"] == "thorough"
     res = ce.run_impl(cases, jit=False, tag="C19", timeout_per_batch=600)
     small = [i for i, c in enumerate(cases) if c["cfg"]["height"] <= 256]
